@@ -744,11 +744,36 @@ def translate_links(repo):
     impl = src[m.end():]
     ins = link_fn(_fn_body(impl, r"pub fn insert\(&mut self, other: Link<T>\) \{"))
     rem = link_fn(_fn_body(impl, r"pub fn remove\(&mut self, other: Link<T>, strong: usize\) \{"))
+    # Link's equality and hashing: which fields decide that two records are the same key
+    m = re.search(r"impl<T> PartialEq for Link<T> \{", src)
+    if not m:
+        raise Unsupported("impl PartialEq for Link<T> not found")
+    eqb = _norm(_fn_body(src[m.end():], r"fn eq\(&self, other: &Self\) -> bool \{"))
+    atoms = {"self.kind == other.kind": "kind_eqb (snd a) (snd b)",
+             "ptr::eq(self.as_ptr(), other.as_ptr())": "Nat.eqb (fst a) (fst b)",
+             "self.ptr == other.ptr": "Nat.eqb (fst a) (fst b)"}
+    parts = [x.strip() for x in eqb.split("&&")]
+    if not parts or any(x not in atoms for x in parts):
+        raise Unsupported("Link::eq outside the subset: %r" % eqb)
+    eq_g = " && ".join(atoms[x] for x in parts)
+    m = re.search(r"impl<T> Hash for Link<T> \{", src)
+    if not m:
+        raise Unsupported("impl Hash for Link<T> not found")
+    hb = _norm(_fn_body(src[m.end():], r"fn hash<H: Hasher>\(&self, state: &mut H\) \{"))
+    hf = []
+    for st in [x.strip() for x in hb.split(";") if x.strip()]:
+        mm = re.match(r"self\.(ptr|kind)\.hash\(state\)$", st)
+        if not mm:
+            raise Unsupported("Link::hash outside the subset: %r" % st)
+        hf.append({"ptr": "HPtr", "kind": "HKind"}[mm.group(1)])
+    extra = ("\n(* impl PartialEq for Link<T> / impl Hash for Link<T> *)\n"
+             "Definition g_link_eq (a b : link) : bool := %s.\n"
+             "Definition g_link_hash_fields : list hfield := [%s].\n" % (eq_g, "; ".join(hf)))
     return ("(* GENERATED by tools/rs2v.py from %s (impl Links<T>) -- do not edit. *)\n"
-            "From Coq Require Import NArith List. Import ListNotations.\nFrom CR Require Import Base.\n"
+            "From Coq Require Import NArith List Bool. Import ListNotations.\nFrom CR Require Import Base.\n"
             "From Gen Require Import LinksLang.\nLocal Open Scope N_scope.\n\n"
             "Definition g_links_insert (t : table) (other : link) : table :=\n%s.\n\n"
-            "Definition g_links_remove (t : table) (other : link) (strong : N) : table :=\n%s.\n" % (path, ins, rem))
+            "Definition g_links_remove (t : table) (other : link) (strong : N) : table :=\n%s.\n" % (path, ins, rem)) + extra
 
 
 # ---------------------------------------------------------------------------------------------------
